@@ -5,10 +5,28 @@ FULL = [f for f in S.ALL_FEATURES if f not in ("exact", "deadlock")]
 
 
 # exclusion predicates for open known findings (vf/findings.py); applied by construction and counted
-KNOWN_EXCLUSIONS = ("preempt_blocked", "preempt_renege", "sched_reroute_self", "jockey_capacity", "preempt_overtime", "ps_priorities")
+# Per property: only the open findings that violate *that property's own clauses* are excluded from its generator
+# (established by dropping each exclusion in turn, VERIF_DROP_EXCLUSIONS, and looking at which clauses fail).
+EXCL = {
+    "C01": (),
+    "C02": ("sched_preempt_blocked", "preempt_renege", "exact_low_precision", "sched_reroute_self"),
+    "C03": ("sched_preempt_blocked", "sched_reroute_self"),
+    "C04": ("sched_preempt_blocked", "preempt_renege", "preempt_overtime", "sched_reroute_self"),
+    "C05": ("sched_preempt_blocked", "preempt_renege", "sched_reroute_self", "preempt_overtime"),
+    "C06": ("jockey_capacity",),
+    "C08": ("preempt_overtime",),
+    "C09": ("ps_priorities", "sched_preempt_blocked", "sched_reroute_self", "preempt_overtime"),
+    "C10": (),
+    "C14": ("sched_preempt_blocked", "sched_reroute_self"),
+    "C15": ("sched_preempt_blocked", "preempt_renege", "preempt_overtime", "sched_reroute_self", "ps_priorities"),
+    "C16": ("sched_preempt_blocked", "preempt_renege", "preempt_overtime", "sched_reroute_self", "ps_priorities"),
+    "C17": ("sched_preempt_blocked", "preempt_renege", "sched_reroute_self"),
+    "C20": ("sched_preempt_blocked", "preempt_renege", "preempt_overtime", "sched_reroute_self"),
+}
+KNOWN_EXCLUSIONS = ("sched_preempt_blocked", "preempt_renege", "sched_reroute_self", "jockey_capacity", "preempt_overtime", "ps_priorities")
 
 
-def full_profile(**kw):
+def full_profile(pid=None, **kw):
     weights = {"inf": 0.25, "zero_servers": 0.08, "schedule": 0.3, "sched_preempt": 0.5, "sched_reroute": 0.3,
                "slotted": 0.2, "ps": 0.12, "capacity": 0.45, "system_capacity": 0.12, "priorities": 0.45,
                "prio_preempt": 0.3, "prio_reroute": 0.3, "reneging": 0.3, "jockeying": 0.4, "baulking": 0.2,
@@ -17,6 +35,6 @@ def full_profile(**kw):
                "self_loops": 0.5, "custom_dists": 0.3, "zero_service": 0.5}
     args = dict(allowed=FULL, weights=weights, numeric="mixed", max_nodes=3, max_classes=3,
                 plans=("max_time", "max_time", "max_customers"), horizon=(4.0, 14.0), budget=500)
-    args["excluded"] = KNOWN_EXCLUSIONS
+    args["excluded"] = EXCL[pid] if pid in EXCL else KNOWN_EXCLUSIONS
     args.update(kw)
     return S.Profile(**args)
